@@ -293,7 +293,14 @@ def to_str(ctx, fr, v):
     if isinstance(v, SInt):
         # small non-negative integers (list positions): tabulated; anything else trips the bound
         cap = 8
-        bound_if(ctx, fr, OR(LT(v.t, 0), GE(v.t, cap)), "str() of an integer outside 0..%d" % (cap - 1))
+        out_of_range = OR(LT(v.t, 0), GE(v.t, cap))
+        # (when the pre-state assumptions already confine the integer, no bound condition is recorded: it would
+        #  only make every later step of the run conditional)
+        if ctx.__dict__.get("path_assumptions") and out_of_range is not False:
+            from vf.e1.interp import feasible
+            if not feasible(ctx, AND(live(ctx, fr), out_of_range)):
+                out_of_range = False
+        bound_if(ctx, fr, out_of_range, "str() of an integer outside 0..%d" % (cap - 1))
         t = ATOMS.intern(str(cap - 1))
         dom = [t]
         for k in reversed(range(cap - 1)):
@@ -996,8 +1003,9 @@ def data_get(ctx, fr, hd, key):
     dom = set()
     for c, i, cond in _each_fce(ctx, hd.ref):
         for k, ck in _key_rows(ctx, key):
-            t = ITE(AND(cond, ck), h.data[c][i][k][1], t)
-            dom |= set(h.key_dom(k))
+            v_ = h.data[c][i][k][1]
+            t = ITE(AND(cond, ck), v_, t)
+            dom |= set(h.key_dom(k)) if is_sym(v_) else {v_}
     if not is_sym(t):
         return ATOMS.vals[t]
     if len(dom) == 1:
